@@ -13,7 +13,7 @@ from dask.utils import SerializableLock
 
 PROPERTY = "C53"
 LEVEL = "other"
-BUDGET = {"quick": 120, "thorough": 1200}
+BUDGET = {"quick": 120, "thorough": 2400}
 EXPLANATION = (
     "All bounded histories over the real SerializableLock: create (fresh token / explicit token A or B), pickle round trip of an existing "
     "object, copy.copy / copy.deepcopy of it, non-blocking acquire, release, locked(), and dropping every reference to an identity class "
@@ -31,7 +31,7 @@ ASSUMPTIONS = [
 STUBS = []
 ENUM = ["every operation and target of the history"]
 OUTSIDE = ["blocking acquires from several OS threads", "other processes (the class documents that it does not exclude across processes)", "histories longer than the bound"]
-BOUNDS = {"quick": dict(history="<= 4 operations, <= 3 live objects", ops=11), "thorough": dict(history="<= 6 operations, <= 4 live objects", ops=11)}
+BOUNDS = {"quick": dict(history="<= 4 operations, <= 3 live objects", ops=11), "thorough": dict(history="<= 5 operations, <= 3 live objects", ops=11)}
 
 
 def functions():
@@ -171,4 +171,4 @@ def mk(L, maxobj):
 def obligations(tier):
     if tier == "quick":
         return [mk(4, 3)]
-    return [mk(5, 4), mk(6, 3)]
+    return [mk(5, 3)]
